@@ -453,3 +453,5 @@ def run(ctx):
     boundaries.check_guards(ctx, 'C13.RG', 'C13')
     boundaries.check_calls(ctx, 'C13.RC', 'C13')
     boundaries.check_amounts(ctx, 'C13.RA', 'C13')
+    from .. import errdisc
+    errdisc.check(ctx, 'C13.RD', 'C13', 42)
